@@ -330,6 +330,29 @@ def global_box(src: str, lo, hi) -> bool:
     raise Unsupported(f"no `{local} = ...` in GlobalScipyMinimizer.__call__")
 
 
+BASINHOPPING_KW = "{'bounds': [bounds.get(name, (None, None)) for name in p0]} if bounds else None"
+
+
+def basinhopping_bounded(src: str) -> bool:
+    """does the basinhopping call hand the caller's bounds to its local steps (`minimizer_kwargs=` of exactly this
+    form: the caller's box for a name that has one, no box otherwise, nothing at all without bounds)?  no such keyword
+    -> False (pinned tree: bounds ignored); another form refuses"""
+    tree = ast.parse(src)
+    cls = next(n for n in tree.body if isinstance(n, ast.ClassDef) and n.name == "GlobalScipyMinimizer")
+    call = next(n for n in cls.body if isinstance(n, ast.FunctionDef) and n.name == "__call__")
+    for node in ast.walk(call):
+        if isinstance(node, ast.Call) and ast.unparse(node.func) == "basinhopping":
+            kw = {k.arg: k.value for k in node.keywords}
+            if ast.unparse(kw.get("x0")) != "list(p0.values())":
+                raise Unsupported("basinhopping: x0 is not list(p0.values())")
+            if "minimizer_kwargs" not in kw:
+                return False
+            if ast.unparse(kw["minimizer_kwargs"]) != BASINHOPPING_KW:
+                raise Unsupported("basinhopping: minimizer_kwargs = " + ast.unparse(kw["minimizer_kwargs"]))
+            return True
+    raise Unsupported("no basinhopping(...) call in GlobalScipyMinimizer.__call__")
+
+
 def render(repo: Path) -> str:
     losses_src = (repo / "src/mxlpy/fit/losses.py").read_text()
     tree = ast.parse(losses_src)
@@ -345,6 +368,7 @@ def render(repo: Path) -> str:
     lo, hi = default_box((repo / "src/mxlpy/minimizers/_scipy.py").read_text())
     gbox = global_box((repo / "src/mxlpy/minimizers/_scipy.py").read_text(), lo, hi)
     uorder = update_order((repo / "src/mxlpy/fit/routines.py").read_text())
+    bhb = basinhopping_bounded((repo / "src/mxlpy/minimizers/_scipy.py").read_text())
     shipped = ", ".join(f'"{n}"' for n in sorted(names))
     rat_ok = [n for n in names if set(needs[n]) <= {"HasAbs"}]
     rat_cases = "\n".join(f'  | "{n}" => some ({n} d p)' for n in sorted(rat_ok))
@@ -372,6 +396,8 @@ def render(repo: Path) -> str:
         f"def defaultBox : Rat × Rat := (({lo.numerator} : Rat) / {lo.denominator}, ({hi.numerator} : Rat) / {hi.denominator})\n\n"
         "/-- the order in which every residual function writes into the model before it simulates -/\n"
         f"def updateOrder : List String := [{', '.join(chr(34) + x + chr(34) for x in uorder)}]\n\n"
+        "/-- basinhopping's local steps get the caller's boxes (names without one stay free; no bounds, no boxes) -/\n"
+        f"def basinhoppingBounded : Bool := {'true' if bhb else 'false'}\n\n"
         "/-- GlobalScipyMinimizer hands scipy one box per entry of p0 (the caller's, or the default box) -/\n"
         f"def globalUsesBox : Bool := {'true' if gbox else 'false'}\n\n"
         "/-- the losses that need no sqrt/log, evaluated at Rat by the driver -/\n"
@@ -403,6 +429,7 @@ def generate(repo: Path, outdir: Path) -> None:
                               "def fitSetsBest : Bool := false\n"
                               "def globalUsesBox : Bool := false\n"
                               "def updateOrder : List String := []\n"
+                              "def basinhoppingBounded : Bool := false\n"
                               "def settingsLoss {α : Type} [Sub α] [Div α] [LT α] [DecidableLT α] [NatCast α]\n"
                               "    (lossFn : List α → List α → α) (standardScale : Bool) (mean scale : α) (data prediction : List α) : α :=\n"
                               "  scaledLoss false lossFn standardScale mean scale data prediction\n"
